@@ -10,6 +10,7 @@ import DateutilVerif.Proofs.ParserGenYmd
 import DateutilVerif.Proofs.ParserGenStrids
 import DateutilVerif.Proofs.ParserGenSmall
 import DateutilVerif.Proofs.ParserGenHms
+import DateutilVerif.Proofs.ParserGenNum
 
 namespace ParserGen
 open PM Py
@@ -123,6 +124,25 @@ theorem gen_eq_model_parse_hms (i : Info) (idx : Nat) (l : List Token) (aj : Boo
 theorem gen_eq_model_assign_tzname (i : Info) (n0 n1 tzname : Option Token) :
     Gen.P.assignTzname i { n0 := n0, n1 := n1, fold := 0 } tzname =
       .ok { n0 := n0, n1 := n1, fold := PM.assignFold n0 n1 tzname } := PGen.assignTzname_eq i n0 n1 tzname
+
+/-! ### `_parse_numeric_token` -/
+
+/-- `parser._parse_numeric_token(tokens, idx, info, ymd, res, fuzzy)`: all eleven arms — `19990101T23[59]`, `YYMMDD` /
+    `HHMMSS[.ss]`, `YYYYMMDD[hhmm[ss]]`, `HH[ ]h`, `HH:MM[:SS[.ss]]`, `01-01[-01]` / `01-Jan[-01]`, a number before a jump
+    word (incl. `12 am`), `12am`, a possible day, the non-fuzzy ValueError, the fuzzy skip — for every token list, every
+    index (inside the list or not), every `_ymd` state and result record.  The model returns how far `idx` moved. -/
+theorem gen_eq_model_parse_numeric_token (cls : Char → CClass) (info : Info) (fuzzy : Bool) (tokens : List Token)
+    (idx : Nat) (ymd : Ymd) (res : Res) :
+    Gen.P.parseNumericToken cls info tokens idx ymd res fuzzy =
+      (PM.parseNumericToken cls info fuzzy tokens idx ymd res).map (fun r => (idx + r.1, r.2.1, r.2.2)) :=
+  PGen.parseNumericToken_eq cls info fuzzy tokens idx ymd res
+
+example : Gen.P.parseNumericToken asciiCls (Info.default false false 2026 2000)
+    [tk "10", tk ":", tk "41", tk ":", tk "59.5"] 0 {} {} false
+    = .ok (4, {}, { hour := some 10, minute := some 41, second := some 59, microsecond := some 500000 }) := by decide
+example : Gen.P.parseNumericToken asciiCls (Info.default false false 2026 2000)
+    [tk "2003", tk "-", tk "09", tk "-", tk "25"] 0 {} {} false
+    = .ok (4, { vals := [2003, 9, 25], century := true, yIdx := some 0 }, {}) := by decide
 
 example : Gen.P.info_month (Info.default false false 2026 2000) (tk "SEPT") = .ok (some 9) := by decide
 example : Gen.P.info_validate (Info.default false false 2026 2000) { year := some 99, tzname := some (tk "z") }
